@@ -980,7 +980,10 @@ func (dsc *dataStoreCommand) expire(keyName string, expiration time.Time, nx, xx
 }
 
 func (dsc *dataStoreCommand) expireTime(keyName string) (expiration time.Time, valid int) {
-	sk, exists := dsc.getKeyObject(keyName)
+	dsc.lock()
+	defer dsc.unlock()
+
+	sk, exists := dsc.getKeyObjectUnlocked(keyName)
 	if !exists {
 		valid = -2
 		return
@@ -994,7 +997,10 @@ func (dsc *dataStoreCommand) expireTime(keyName string) (expiration time.Time, v
 }
 
 func (dsc *dataStoreCommand) persist(keyName string) (output respValue) {
-	sk, exists := dsc.getKeyObject(keyName)
+	dsc.lock()
+	defer dsc.unlock()
+
+	sk, exists := dsc.getKeyObjectUnlocked(keyName)
 	if !exists || !sk.expiresAt.Before(maxTime) {
 		output.data = respInt(0)
 		return
